@@ -27,7 +27,7 @@ BOUNDSCHECK_TIERS = ("thorough",)
 
 
 def REQUIRED(tier):
-    return [f"t:{t}" for t in TRANSFORMS] + ["outputs_parsed", "outputs_compared", "spy:cwrite_calls", "regime:multi_block", "regime:subrange", "regime:multi_file_input"]
+    return [f"t:{t}" for t in TRANSFORMS] + ["outputs_parsed", "outputs_compared", "spy:cwrite_calls", "regime:multi_block", "regime:subrange", "regime:multi_file_input", "regime:reader_with_history"]
 
 
 def cases(tier, seed):
@@ -133,6 +133,24 @@ def run_case(case, ctx):
     kw = {"gulp": gulp, "quiet": True, "description": "v"}
     rkw = dict(kw, start=start, nsamps=nsamps)
     label = f"{t}"
+    # reader with a history: earlier, unrelated operations on the same reader object must not influence the transform
+    prng = np.random.default_rng([case["pseed"], 77])
+    if prng.random() < 0.5:
+        N_ = case["N"]
+        for _ in range(int(prng.integers(1, 3))):
+            kind = int(prng.integers(0, 4))
+            a = int(prng.integers(0, N_ - 2)); b = int(prng.integers(1, N_ - a))
+            with np.errstate(all="ignore"):
+                if kind == 0:
+                    (fil.compute_stats if prng.random() < 0.5 else fil.compute_stats_basic)(gulp=int(prng.integers(1, N_ + 1)), start=a, nsamps=b, quiet=True, description="v")
+                elif kind == 1:
+                    it = fil.read_plan(gulp=max(1, b // 3), start=a, nsamps=b, quiet=True, description="v")
+                    next(it)  # abandon the plan after one block
+                elif kind == 2:
+                    fil.read_block(a, b)
+                else:
+                    fil.bandpass(gulp=int(prng.integers(1, N_ + 1)), start=a, nsamps=b, quiet=True, description="v")
+        ctx.count("regime:reader_with_history")
     ctx.evaluated()
     ctx.count(f"t:{t}")
     if len(paths) > 1:
